@@ -74,9 +74,10 @@ reg("C18",
     design_ref="DESIGN.md 4.9, 5/C18, 9 (C18 row)", category="model_checking")
 
 reg("C20",
-    text="TLC enumerates every collection of 1-3 multi-extension FITS layouts (empty primary, image HDUs of distinct shapes, binary table, alternate WCS keys) x "
+    text="TLC enumerates every sequence of 1-3 input paths over a set of physical multi-extension FITS files (the same file may be named at several positions; layouts: empty primary, "
+         "image HDUs of distinct shapes, binary table, alternate WCS keys) x "
          "hdu_index none/scalar/per-file list x wcs_key none/scalar/per-file list, checks the property's sentences (scalar applies to every file, list is positional "
-         "and local, none = first image HDU via the code's for/break loop, descriptions and images yield the same HDU/WCS in input order under every interleaving, "
+         "and local, none = first image HDU via the code's for/break loop, descriptions and images yield the same HDU/WCS in input order under every interleaving, one item per list position - a file named twice is read at each position with that position's own entry, "
          "command-line spelling selects the same thing) and emits the FITS contents to write and the expected (hdu, shape, value, key, CRVAL, CRPIX) per input path; "
          "the real load / SimpleFitsCollection / `toasty view` argv parsing / tile_fits are run on every case and descriptions(), images(), export_simple() compared, "
          "plus real tile_fits and tile-multi-tan runs whose tile pixels are counted.",
@@ -202,10 +203,10 @@ reg("C17",
     text="spec/Wtml.tla models file names as character sequences and URL templates as token sequences: TLC checks, for every position to a depth bound (walk state space to depth 8, "
          "both naming schemes, all formats) and seeded positions to depth 12, that expanding the recorded template gives exactly the tile's path, that the position can be read back "
          "from the name (distinct positions give distinct names), and that FileType is the extension. TLC's expansions of the Url the real Builder records are compared with the real "
-         "PyramidIO.tile_path. The real workflows (tile-study, tile-allsky, cascade, tile_fits TAN/TOAST, pipeline process-todos) are run with every tile save observed, and TLC judges "
+         "PyramidIO.tile_path. The real workflows (tile-study, tile-allsky, cascade, tile-multi-tan, tile_fits TAN/TOAST with single inputs, multi-TAN / multi-WCS collections and TOAST collections of images of different pixel scales in every input order, `toasty view --tile-only --tiling-method toast`, pipeline process-todos) are run with every tile save observed, and TLC judges "
          "each observed directory against the property's sentences. spec/WtmlHistory.tla is the tile_fits history machine (fresh / reuse / override on one directory); every history TLC "
          "generates is replayed with real tile_fits calls and after each call the returned Builder's imgset/place must equal the parsed index_rel.wtml.",
-    note="Bounded: walk depth 5 (quick) / 8; histories of <= 3 (quick) / 4 calls over 2 / 4 small FITS inputs. Placeholder meaning {1}=level {2}=x {3}=y is fixed by the WWT client and "
+    note="Bounded: walk depth 5 (quick) / 8; histories of <= 3 (quick) / 4 calls over 2 / 4 small inputs (TAN full, TAN small, single-image TOAST, multi-image TOAST fine-then-coarse). Placeholder meaning {1}=level {2}=x {3}=y is fixed by the WWT client and "
          "assumed. Workflows run serially so the save hook sees every write; HiPS output is not exercised (needs Java + network). TLC and the JSON bridge are trusted.",
     technique="TLA+/TLC theorem checking + state-space walk; TLC-evaluated oracle tables; observations of the real workflows judged by TLC; replay of all TLC histories into the real tile_fits",
     design_ref="DESIGN.md 4.10 (Wtml.tla), 5/C17, 9")
